@@ -26,7 +26,7 @@ from typing import TYPE_CHECKING, Any, Literal, overload
 
 import numpy as np
 
-from ..tools.cache import cached_method, cached_property
+from ..tools.cache import cached_method, cached_property, hash_mutable
 from ..tools.docstrings import fill_in_docstring
 from ..tools.misc import hybridmethod
 from .coordinates import CoordinatesBase, DimensionError
@@ -447,7 +447,9 @@ class GridBase(metaclass=ABCMeta):
 
     def _cache_hash(self) -> int:
         """Returns a value to determine when a cache needs to be updated."""
-        return hash(
+        # use `hash_mutable` since the builtin hash does not distinguish some numbers,
+        # e.g., bounds -1 and -2
+        return hash_mutable(
             (
                 self.__class__.__name__,
                 self.shape,
